@@ -524,6 +524,19 @@ func (t *treeRun) act(a TAct) {
 		if n := t.node(a.Node); n != nil && n.Sub != nil && n.Mon == nil {
 			h.Drain(n)
 		}
+	case "drain-racing":
+		// the stalled consumer wakes up and reads everything it has - not at a quiet
+		// moment but while the next events are on their way to it
+		if n := t.node(a.Node); n != nil && n.Sub != nil && n.Mon == nil && n.Reader == "stalled" {
+			n.RacyDrain = true
+			detsim.Count("probe:stalled-consumer-drains-mid-stream")
+			go func() {
+				for i := a.Ms; i > 0; i-- {
+					detsim.Yield("drain-racing")
+				}
+				h.DrainSome(n, 0)
+			}()
+		}
 	case "drain-some":
 		// a slow consumer catches up a little, at a quiescent point, and stalls again
 		detsim.Settle()
@@ -834,6 +847,9 @@ func (t *treeRun) stalledChecks() {
 					b = 0
 				}
 			}
+		}
+		if n.RacyDrain {
+			need = 0 // (what fitted depends on when exactly it woke up)
 		}
 		if len(got) < need && (closedHere || !t.closedByScenario(n)) {
 			detsim.Fail("stalled-consumer-lost-too-much", "%s (buffer %d) drained only %d events although %d were published after its creation: it may only lose what exceeds its buffer", n.Name(), capv, len(got), len(ref))
